@@ -51,11 +51,11 @@ package fans
 //@   modifies nothing
 
 //@ func (*HwMonFan).GetRpmAvg
-//@   ensures result == fan.RpmMovingAvg
+//@   ensures same(result, fan.RpmMovingAvg)
 //@   modifies nothing
 
 //@ func (*HwMonFan).SetRpmAvg
-//@   ensures fan.RpmMovingAvg == rpm
+//@   ensures same(fan.RpmMovingAvg, rpm)
 //@   modifies fan.RpmMovingAvg
 
 //@ func (*HwMonFan).GetPwm
@@ -108,7 +108,7 @@ package fans
 //@   ensures result == 1
 //@   modifies nothing
 //@ func (*FileFan).GetRpmAvg
-//@   ensures result == float64(fan.Rpm)
+//@   ensures same(result, float64(fan.Rpm))
 //@   modifies nothing
 //@ func (*FileFan).SetRpmAvg
 //@   modifies fan.Rpm
@@ -150,7 +150,7 @@ package fans
 //@   ensures result == 1
 //@   modifies nothing
 //@ func (*CmdFan).GetRpmAvg
-//@   ensures result == float64(fan.Rpm)
+//@   ensures same(result, float64(fan.Rpm))
 //@   modifies nothing
 //@ func (*CmdFan).SetRpmAvg
 //@   modifies fan.Rpm
@@ -174,4 +174,29 @@ package fans
 //@   requires cmdWF(fan)
 //@   ensures feature == FeatureControlMode ==> !result
 //@   ensures feature == FeaturePwmSensor ==> result
+//@   modifies nothing
+
+// ---- setters --------------------------------------------------------------------------------------
+//@ func (*HwMonFan).SetMinPwm
+//@   ensures (fan.Config.MinPwm == nil || force) ==> fan.MinPwm != nil && *fan.MinPwm == pwm
+//@   ensures !(fan.Config.MinPwm == nil || force) ==> fan.MinPwm == old(fan.MinPwm)
+//@   modifies fan.MinPwm
+//@ func (*FileFan).SetMinPwm
+//@   modifies nothing
+//@ func (*CmdFan).SetMinPwm
+//@   modifies nothing
+
+// ---- control mode -----------------------------------------------------------------------------------
+//@ func (*HwMonFan).SetPwmEnabled
+//@   requires hwWF(fan)
+//@   ghostdo modeWrites[fan] := modeWrites[fan] + 1
+//@   ghostdo lastMode[fan] := value
+//@   ensures modeWrites == old(modeWrites)[fan := old(modeWrites)[fan] + 1] && lastMode == old(lastMode)[fan := value]
+//@   ensures forall p string :: p != hwEnablePath(fan) ==> fileInt[p] == old(fileInt)[p]
+//@   modifies modeWrites, lastMode, fileInt
+//@ func (*FileFan).SetPwmEnabled
+//@   ensures err == nil
+//@   modifies nothing
+//@ func (*CmdFan).SetPwmEnabled
+//@   ensures err == nil
 //@   modifies nothing
